@@ -33,7 +33,7 @@ CLASSES = ["constant", "onebit", "eightbit", "wide", "outlier", "mixed_const", "
 
 
 def bounds(tier: str) -> dict:
-    return {"n": 12 if tier == "quick" else 15, "nchans": [1, 3], "modes": ["basic", "full"], "classes": CLASSES,
+    return {"n": 12 if tier == "quick" else 15, "nchans": [1, 3], "wide_band_nchans": [65, 130, 257], "modes": ["basic", "full"], "classes": CLASSES,
             "merge_n": 10 if tier == "quick" else 14}
 
 
@@ -45,6 +45,11 @@ def shards(tier: str, seed: int) -> list:
             for cl in b["classes"]:
                 out.append({"kind": "chunks", "mode": mode, "C": C, "cls": cl, "n": b["n"]})
                 out.append({"kind": "merge", "mode": mode, "C": C, "cls": cl, "n": b["merge_n"]})
+        # wide bands (more channels than any tile or vector width is likely to be): shorter streams, value classes that do not depend on C
+        for C in (65, 130, 257):
+            for cl in ("eightbit", "wide", "onebit"):
+                out.append({"kind": "chunks", "mode": mode, "C": C, "cls": cl, "n": 7 if tier == "quick" else 10})
+                out.append({"kind": "merge", "mode": mode, "C": C, "cls": cl, "n": 6 if tier == "quick" else 8})
     return out
 
 
@@ -106,7 +111,7 @@ def _verify(cs, X, mode, res, case, site) -> bool:
     dv = np.max(np.where(const, 0.0, np.abs(gv - v) / np.where(v > 0, v, 1.0)))
     res.maximum("mean_dev_over_tol", dm / tol)
     res.maximum("var_dev_over_tol", dv / tol)
-    if dm > tol or dv > tol:
+    if not (dm <= tol and dv <= tol):
         res.violation({"site": site, "symptom": "mean/variance differ from two-pass float64", "mode": mode}, case,
                       f"mean {gm.tolist()} want {m.tolist()}; var {gv.tolist()} want {v.tolist()}")
         return False
@@ -123,7 +128,7 @@ def _verify(cs, X, mode, res, case, site) -> bool:
         dk = np.max(np.abs(gk - ku[~const]) / (1e-3 + tol * (3 + np.abs(ku[~const]))))
         res.maximum("skew_dev_over_tol", ds)
         res.maximum("kurt_dev_over_tol", dk)
-        if ds > 1 or dk > 1:
+        if not (ds <= 1 and dk <= 1):
             res.violation({"site": site, "symptom": "skewness/kurtosis differ from two-pass float64", "mode": mode}, case,
                           f"skew {vals[3].tolist()} want {sk.tolist()}; kurt {vals[4].tolist()} want {ku.tolist()}")
             return False
